@@ -14,7 +14,7 @@ res = {}
 try:
     env = dict(os.environ, PYTHONPATH=wt, PYTHONDONTWRITEBYTECODE="1")
     demo = os.path.join(out, "demo.py")
-    src = open(demo).read().replace(f"/tmp/mut4/{prop}-out", out).replace(f"/tmp/mut4/{prop}", wt).replace(f"/tmp/mut3/{prop}-out", out).replace(f"/tmp/mut3/{prop}", wt).replace(f"/tmp/mut/{prop}", wt)   # demos may hard-code their worktree path
+    src = open(demo).read().replace(f"/tmp/mut6/{prop}-m6-out", out).replace(f"/tmp/mut6/{prop}-m6", wt).replace(f"/tmp/mut4/{prop}-out", out).replace(f"/tmp/mut4/{prop}", wt).replace(f"/tmp/mut3/{prop}-out", out).replace(f"/tmp/mut3/{prop}", wt).replace(f"/tmp/mut/{prop}", wt)   # demos may hard-code their worktree path
     d2 = os.path.join(tempfile.gettempdir(), f"demo_{new}.py"); open(d2, "w").write(src)
     r0 = subprocess.run(["/venv/bin/python", d2], env=env, capture_output=True, text=True, timeout=900, cwd=wt)
     res["demo_exit_without_patch"] = r0.returncode
